@@ -49,6 +49,53 @@ def classify(st: ast.AST, steps_param: str) -> str | None:
     return None
 
 
+def _splice_delegated_generator(prog: Program, L: Ledger, driver, irun):
+    """irun may hand the loop to a private generator method.  `yield from self._g(...)` keeps everything lazy (spliced,
+    nothing to report).  `return self._g(...)` from a plain function runs the statements before it when irun is *called*,
+    not when the generator is iterated: any state they set (the step bound, validation) is stale for a generator that is
+    obtained first and iterated after another run — reported under O2 — and the loop rules go on over the spliced body."""
+    import copy
+
+    from ..loader import FuncInfo
+
+    body = irun.body()
+    has_yield = any(isinstance(n, (ast.Yield, ast.YieldFrom)) for n in walk_no_nested(irun.node))
+    deleg = None
+    for i, st in enumerate(body):
+        call = None
+        if isinstance(st, ast.Return) and isinstance(st.value, ast.Call) and not has_yield:
+            call, lazy = st.value, False
+        elif isinstance(st, ast.Expr) and isinstance(st.value, ast.YieldFrom) and isinstance(st.value.value, ast.Call):
+            call, lazy = st.value.value, True
+        if call is not None and isinstance(call.func, ast.Attribute) and norm(call.func.value) == "self":
+            g = prog.lookup_method(driver, call.func.attr)
+            if g is not None and any(isinstance(n, (ast.Yield, ast.YieldFrom)) for n in walk_no_nested(g.node)):
+                deleg = (i, st, call, g, lazy)
+                break
+    if deleg is None:
+        return irun
+    i, st, call, g, lazy = deleg
+    gparams = [a.arg for a in g.node.args.args[1:]]
+    given = [norm(a) for a in call.args] + [k.arg for k in call.keywords if k.arg and norm(k.value) == k.arg]
+    if given != gparams[: len(given)] or len(given) != len(gparams):
+        raise AnalysisError(f"irun delegates to {g.qualname} with re-named or computed arguments: outside the recognised fragment")
+    if not lazy:
+        eager = [x for x in body[:i] if not (isinstance(x, ast.Expr) and isinstance(x.value, ast.Constant))]
+        effects = [x for x in eager if any(isinstance(n, (ast.Assign, ast.AugAssign, ast.AnnAssign)) and any(isinstance(t, ast.Attribute) for t in (n.targets if isinstance(n, ast.Assign) else [n.target])) for n in ast.walk(x))
+                   or any(isinstance(n, ast.Call) and isinstance(n.func, ast.Attribute) and norm(n.func.value) == "self" for n in ast.walk(x))]
+        L.check(not effects, "O2", "irun:eager-setup", f"{irun.module.relpath}:{(effects[0] if effects else st).lineno}",
+                "irun is a plain function that sets up the run (" + "; ".join(norm(x)[:50] for x in effects[:3]) + f") when it is *called* and returns the generator {g.name}(): "
+                "the step bound and validation are those of the moment the generator was created, not of the moment it is iterated",
+                "g = sim.irun(3); sim.run(2); then exhausting g performs 0 steps instead of 3 — run, srun and a fully iterated irun are no longer interchangeable", "eager-setup")
+    node = copy.deepcopy(irun.node)
+    nb = [x for x in node.body]
+    # position of the delegating statement in the copied body (docstring included)
+    off = len(node.body) - len(body)
+    node.body = nb[: off + i] + copy.deepcopy(g.body()) + nb[off + i + 1:]
+    ast.fix_missing_locations(node)
+    return FuncInfo(irun.name, node, irun.module, irun.cls, irun.kind)
+
+
 def run(prog: Program, L: Ledger) -> None:
     L.explanation = (
         "C15 decided on the control-flow graphs of Driver.irun / call_observers / run and MonteCarlo.run / srun: the observer "
@@ -70,6 +117,7 @@ def run(prog: Program, L: Ledger) -> None:
     conv = driver.methods.get("converged")
     if not (irun and callobs and conv):
         raise AnalysisError("Driver.irun / call_observers / converged anchor missing")
+    irun = _splice_delegated_generator(prog, L, driver, irun)
     irun, callobs, conv = flat(prog, irun, driver), flat(prog, callobs, driver), flat(prog, conv, driver)
     # irun must not be overridden silently by subclasses with a different loop
     for sub in prog.subclasses(driver, strict=True):
